@@ -341,8 +341,9 @@ def buffered(ctx, prog, which):
                                'buffered %s sink: after a failed flush the accepted metric is still buffered but the following %s sent nothing' % (which, how), retry_sc)
             if st is not None:
                 f = st.fields
-                ctx.oblige(ex, 'C14', 'packets', z3.And(f[1].t == okp, f[3].t == errp), 'buffered sink: packet counters do not match the send attempts')
-                ctx.oblige(ex, 'C14', 'bytes', z3.And(f[0].t == okb, f[2].t == errb), 'buffered sink: byte counters do not match the datagram sizes')
+                stsc = (lambda ex_, neg: {'kind': 'sink', 'sink': 'unix-buffered-wouldblock'}) if which == 'unix' else None
+                ctx.oblige(ex, 'C14', 'packets', z3.And(f[1].t == okp, f[3].t == errp), 'buffered sink: packet counters do not match the send attempts', stsc)
+                ctx.oblige(ex, 'C14', 'bytes', z3.And(f[0].t == okb, f[2].t == errb), 'buffered sink: byte counters do not match the datagram sizes', stsc)
 
         ex.run(entry, on_path)
         ctx.stats.append(ex.stats)
